@@ -122,4 +122,18 @@ CHECKS = {
              "shards": {"quick": 1, "thorough": 16}, "timeout": {"quick": 600, "thorough": 7200}},
         ],
     },
+    "C16": {
+        "rule": ("generated handler configurations (command subsets in any case and via placeholders, default commands; credential maps with empty names, empty passwords, "
+                 "placeholders, unset placeholders) x generated client byte scripts (version, method lists, user/pass sub-negotiation right/wrong/unknown/empty, command 0-255 "
+                 "samples, IPv4/domain/IPv6/garbage address types, truncations) through the real handler over loopback TCP with a loopback target listener. Oracle (safety): "
+                 "target accepts / REP=0 / new UDP socket only if the configuration permits the command for that client. Non-trivial = credentials configured and a "
+                 "syntactically valid request; distinct = distinct (config, session)."),
+        "assumptions": ["the reference reading of the configuration comes from the handler's documentation: default commands CONNECT+ASSOCIATE, credentials with an empty (resolved) user name are unusable",
+                        "BIND is answered 'command not supported' by the library even when enabled; only safety is judged"],
+        "min_classes": {"quick": {"C16/served": 25, "C16/must-refuse": 600, "C16/may-serve": 60}},
+        "runs": [
+            {"name": "sessions", "pkg": "./c16", "run": ".", "rapid_checks": {"quick": 500, "thorough": 20000},
+             "shards": {"quick": 4, "thorough": 16}, "timeout": {"quick": 600, "thorough": 7200}},
+        ],
+    },
 }
